@@ -476,7 +476,8 @@ func c07wirePrefixNames(stats map[string]int) {
 	rc := &restli.Client{Client: &http.Client{Transport: &transport{h: server.Handler(), rec: rec}}, HostnameResolver: &restli.SimpleHostnameResolver{Hostname: bu}}
 	client := reflect.ValueOf(info.newClient(rc))
 	full := &gen{text: "x", noExcl: false}
-	forbidden := map[string][]string{"Create": {"created", "address"}, "Update": {"created", "address", "createdBy", "addressLine2"}, "BatchUpdate": {"created", "address", "createdBy", "addressLine2"}}
+	forbidden := map[string][]string{"Create": {"created", "address", "zAudit"}, "Update": {"created", "address", "createdBy", "addressLine2", "zAudit"},
+		"BatchUpdate": {"created", "address", "createdBy", "addressLine2", "zAudit"}}
 	for _, mname := range []string{"Create", "Update", "BatchUpdate"} {
 		m := client.MethodByName(mname)
 		if !m.IsValid() {
@@ -495,6 +496,22 @@ func c07wirePrefixNames(stats map[string]int) {
 		for _, f := range forbidden[mname] {
 			if strings.Contains(rec.body, `"`+f+`":`) {
 				violation("C07/wire/client-transmits-excluded-field/"+name+"."+mname+"/"+f, fmt.Sprintf("%s.%s transmitted %q: %s", name, mname, f, rec.body), cs)
+			}
+		}
+		if mname == "BatchUpdate" {
+			// every entity the caller passed is transmitted (minus its excluded fields): leaving a field out of one entity must
+			// not make the next entity disappear
+			var doc struct {
+				Entities map[string]map[string]any `json:"entities"`
+			}
+			json.Unmarshal([]byte(rec.body), &doc)
+			if want := args[0].Len(); len(doc.Entities) != want {
+				violation("C07/wire/client-drops-entities/"+name+".BatchUpdate", fmt.Sprintf("%d entities passed, %d transmitted: %s", want, len(doc.Entities), rec.body), cs)
+			}
+			for k, e := range doc.Entities {
+				if _, ok := e["name"]; !ok {
+					violation("C07/wire/client-drops-allowed-field/"+name+".BatchUpdate/name", fmt.Sprintf("entity %s was transmitted without its name: %s", k, rec.body), cs)
+				}
 			}
 		}
 		if mname == "Create" && !strings.Contains(rec.body, `"createdBy":`) {
